@@ -1440,6 +1440,32 @@ fn serde_flatstack(v: &[u64]) {
             }
         }
         1 => {
+            // a stack whose region holds state without owning a single heap byte: only empty items before serialisation
+            {
+                let mut fs = <FlatStack<ConsecutiveIndexPairs<StringRegion>, IndexOptimized>>::default();
+                for _ in 0..n + 1 {
+                    fs.copy("");
+                }
+                let mut c = round_trip(&fs);
+                vassert!(fs.len() == c.len() && (0..fs.len()).all(|j| fs.get(j) == c.get(j)), "VF:serde.read_differs_after_round_trip");
+                for i in 0..3 {
+                    let s = STRS4[(v[2] as usize + i) % 4];
+                    fs.copy(s);
+                    c.copy(s);
+                    vassert!(fs.len() == c.len() && (0..fs.len()).all(|j| fs.get(j) == c.get(j)), "VF:serde.read_differs_after_round_trip");
+                }
+            }
+            // 128-bit elements below an option region (formats buffer flattened / untagged content without 128-bit support)
+            {
+                let mut r = <OptionRegion<OwnedRegion<u128>>>::default();
+                let wide: [u128; 3] = [1u128 << 100, 7, u128::MAX];
+                let a = r.push(Some(&wide[..(n % 3) + 1]));
+                let b = r.push(None::<&[u128]>);
+                let mut c: OptionRegion<OwnedRegion<u128>> = round_trip(&r);
+                vassert!(c.index(a) == r.index(a) && c.index(b) == r.index(b), "VF:serde.read_differs_after_round_trip");
+                let (x, y) = (r.push(Some(&wide[..])), c.push(Some(&wide[..])));
+                vassert!(x == y && c.index(y) == r.index(x), "VF:serde.read_differs_after_round_trip");
+            }
             let mut fs = <FlatStack<MirrorRegion<usize>, IndexOptimized>>::default();
             for i in 0..n + 1 {
                 fs.copy(WIDE[(v[1] as usize + i) % 6]);
